@@ -118,8 +118,24 @@ def rule_r3(chk, facts):
     def cr_test(ex):
         return any(m[0] == 'b' and m[1] in ('==', '!=') and const_val(m[3]) == 13 for m in walk_own(ex))
 
+    # "nothing (more) was read": the result of fgets() is NULL - tested directly or through a local - or the local
+    # that records whether a line terminator was seen is false
+    from_fgets, term_flags = set(), set()
+    for b, i, ln, m in f.nodes():
+        if is_assign(m) and m[1] == '=' and nocast(m[2])[0] == 'l':
+            r = nocast(m[3])
+            if r[0] == 'call' and callee_name(r) == 'fgets':
+                from_fgets.add(nocast(m[2]))
+            if any(isinstance(x, (list, tuple)) and x and x[0] == 'b' and x[1] == '==' and const_val(x[3]) == 10 for x in walk(m[3])):
+                term_flags.add(nocast(m[2]))
+
+    def is_fgets(x):
+        x = nocast(x)
+        return x in from_fgets or (x[0] == 'call' and callee_name(x) == 'fgets')
+
     def no_terminator(l):
-        return edge_has_atom(l, lambda a: (a[0] == 'z' and a[1][0] == 'l' and a[1][1] in ('Terminated', 'ptr')) or
+        return edge_has_atom(l, lambda a: (a[0] == 'z' and (is_fgets(a[1]) or a[1] in term_flags)) or
+                             (a[0] == 'cmp' and a[1] == '==' and is_fgets(a[2]) and const_val(a[3]) == 0) or
                              (a[0] == 'cmp' and a[1] == '<=' and a[2][0] == 'l' and const_val(a[3]) == 0))
     ok, w = f.guarded(bs, 0, no_terminator, cr_test, start=outer[1])
     # the CR test must itself be in the per-chunk loop, i.e. inside the outer iteration
